@@ -453,10 +453,10 @@ End WriterProofs.
 
 Definition har_sanitized : wconf := {| w_fmt := HAR; w_sanitize := true; w_preserve := false |}.
 Definition vcr_default : wconf := {| w_fmt := VCR; w_sanitize := true; w_preserve := false |}.
-Definition i_plain (n : N) : inter := {| i_id := n; i_userinfo := false; i_response := true; i_codec := CodecOk |}.
-Definition i_user (n : N) : inter := {| i_id := n; i_userinfo := true; i_response := true; i_codec := CodecOk |}.
-Definition i_bogus (n : N) : inter := {| i_id := n; i_userinfo := false; i_response := true; i_codec := CodecUnknown |}.
-Definition i_undefined (n : N) : inter := {| i_id := n; i_userinfo := false; i_response := true; i_codec := CodecRaises |}.
+Definition i_plain (n : N) : inter := {| i_id := n; i_userinfo := false; i_response := true; i_codec := CodecOk; i_cookie_values := [] |}.
+Definition i_user (n : N) : inter := {| i_id := n; i_userinfo := true; i_response := true; i_codec := CodecOk; i_cookie_values := [] |}.
+Definition i_bogus (n : N) : inter := {| i_id := n; i_userinfo := false; i_response := true; i_codec := CodecUnknown; i_cookie_values := [] |}.
+Definition i_undefined (n : N) : inter := {| i_id := n; i_userinfo := false; i_response := true; i_codec := CodecRaises; i_cookie_values := [] |}.
 
 Lemma each_interaction_once_now w h : no_entry_raises w h = true -> written w h = (complete (delivered h), Closed).
 Proof. apply each_interaction_once. Qed.
@@ -464,15 +464,48 @@ Proof. apply each_interaction_once. Qed.
 Lemma written_is_prefix_now w h : exists rest, delivered h = map fst (fst (written w h)) ++ rest.
 Proof. apply written_is_prefix. Qed.
 
-(* HAR: no entry raises any more, whatever the sanitization flag and the URLs *)
+(* HAR: _extract_cookies hands SimpleCookie one character at a time, and a one-character string is never a
+   key=value pair: no CookieError, whatever the Cookie header holds *)
+Lemma pieces_now_never_raise v : existsb cookie_error (pieces_now v) = false.
+Proof.
+  unfold pieces_now. induction v as [|c v IH]; [reflexivity|].
+  cbn [map existsb]. rewrite IH. reflexivity.
+Qed.
+Lemma cookies_never_raise vs : existsb cookie_error (flat_map pieces_now vs) = false.
+Proof.
+  induction vs as [|v vs IH]; [reflexivity|].
+  cbn [flat_map]. rewrite existsb_app, pieces_now_never_raise, IH. reflexivity.
+Qed.
+Lemma har_entry_never_raises san pres i : entry_raises {| w_fmt := HAR; w_sanitize := san; w_preserve := pres |} i = false.
+Proof. unfold entry_raises. cbn [w_fmt w_sanitize]. apply cookies_never_raise. Qed.
+
 Lemma har_never_raises san pres h : no_entry_raises {| w_fmt := HAR; w_sanitize := san; w_preserve := pres |} h = true.
 Proof.
   unfold no_entry_raises, no_entry_raises_gen. apply forallb_forall. intros e _. destruct e as [ints|]; [|reflexivity].
-  apply forallb_forall. intros i _. reflexivity.
+  apply forallb_forall. intros i _. rewrite har_entry_never_raises. reflexivity.
 Qed.
 Lemma once_har san pres h :
   written {| w_fmt := HAR; w_sanitize := san; w_preserve := pres |} h = (complete (delivered h), Closed).
 Proof. apply each_interaction_once_now, har_never_raises. Qed.
+
+(* ... and the HAR cookies lists are always empty *)
+Lemma har_cookies_empty name d : har_cookies name d = [].
+Proof.
+  unfold har_cookies. destruct (hget name d) as [vs|]; [|reflexivity].
+  induction vs as [|v vs IH]; [reflexivity|]. cbn [flat_map]. rewrite IH, app_nil_r.
+  induction v as [|c v IHv]; [reflexivity | exact IHv].
+Qed.
+
+(* sentinel: were the comprehension repaired to iterate over the header values, a cookie named tenant/id
+   (sanitization off) would kill the HAR writer unless CookieError is caught; with sanitization on it would not *)
+Definition c_tenant : str := [116;101;110;97;110;116;47;105;100;61;49].     (* tenant/id=1 *)
+Definition i_cookie (n : N) (v : str) : inter :=
+  {| i_id := n; i_userinfo := false; i_response := true; i_codec := CodecOk; i_cookie_values := [v] |}.
+Lemma whole_value_cookies_would_raise :
+  written_whole {| w_fmt := HAR; w_sanitize := false; w_preserve := false |} [CScenario [i_plain 1; i_cookie 2 c_tenant; i_plain 3]] = ([(1, true)], Died)
+  /\ written_whole {| w_fmt := HAR; w_sanitize := true; w_preserve := false |} [CScenario [i_plain 1; i_cookie 2 c_tenant; i_plain 3]] = (complete [1; 2; 3], Closed)
+  /\ written {| w_fmt := HAR; w_sanitize := false; w_preserve := false |} [CScenario [i_plain 1; i_cookie 2 c_tenant; i_plain 3]] = (complete [1; 2; 3], Closed).
+Proof. repeat split; vm_compute; reflexivity. Qed.
 
 (* VCR: a charset Python does not know is harmless now *)
 Definition no_raising_codec (h : list cevent) : bool :=
@@ -482,7 +515,7 @@ Lemma vcr_no_raising_codec san pres h : no_raising_codec h = true ->
 Proof.
   unfold no_raising_codec, no_entry_raises, no_entry_raises_gen. intros H. rewrite forallb_forall in *. intros e He.
   specialize (H e He). destruct e as [ints|]; [|reflexivity]. rewrite forallb_forall in *. intros i Hi.
-  specialize (H i Hi). unfold entry_raises. cbn. destruct (i_codec i); try discriminate; rewrite ?andb_false_r; reflexivity.
+  specialize (H i Hi). unfold entry_raises. cbn [w_fmt w_preserve]. destruct (i_codec i); try discriminate; rewrite ?andb_false_r; reflexivity.
 Qed.
 Lemma once_vcr san pres h : no_raising_codec h = true ->
   written {| w_fmt := VCR; w_sanitize := san; w_preserve := pres |} h = (complete (delivered h), Closed).
